@@ -74,6 +74,17 @@ func (s *session) request(ctx context.Context, req *ssh.Request) error {
 
 		s.anonssh.osenv.Logf("cmdline: %q", cmdline)
 		// 2021/09/12 21:25:34 cmdline: ["rsync" "--server" "--daemon" "."]
+		//
+		// The command line goes to the same entry point as the command line
+		// of the gokr-rsync binary, which would also run a server on arbitrary
+		// paths, a client (including a remote shell of the peer’s choosing) or
+		// another daemon. Over SSH, we only speak the rsync daemon protocol.
+		if len(cmdline) != 4 ||
+			cmdline[1] != "--server" ||
+			cmdline[2] != "--daemon" ||
+			cmdline[3] != "." {
+			return fmt.Errorf("only the rsync daemon protocol is supported (rsync --server --daemon .), got command line %q", cmdline)
+		}
 		go func() {
 			stderr := s.channel.Stderr()
 			err := s.anonssh.main(cmdline, s.channel, s.channel, stderr)
